@@ -23,7 +23,9 @@ ASSUMES = ["operations are called with any site index (the state is preserved by
 HEADER = "From Coq Require Import List. Import ListNotations.\nFrom Yaqs Require Import Model.Gauge."
 
 
-def random_mps(rng, L, dims, chi, deficient):
+def random_mps(rng, L, dims, chi, deficient, alias=None):
+    """alias: None | "object" (one array object reused at every bulk site of equal shape) | "view" (bulk sites are views of one
+    buffer, as MPO.identity(L).to_mps() produces them): a gauge move must not write through to another site"""
     from mqt.yaqs.core.data_structures.networks import MPS
 
     tens = []
@@ -34,6 +36,15 @@ def random_mps(rng, L, dims, chi, deficient):
         if deficient and r > 1:
             t[:, :, -1] = t[:, :, 0]  # two equal columns: the bond is rank deficient
         tens.append(t)
+    if alias and L >= 4:
+        bulk = [i for i in range(1, L - 1) if tens[i].shape == tens[1].shape]
+        if alias == "object":
+            for i in bulk:
+                tens[i] = tens[1]
+        else:
+            buf = np.stack([tens[1]] * len(bulk))
+            for k, i in enumerate(bulk):
+                tens[i] = buf[k]
     return MPS(L, tensors=tens, physical_dimensions=list(dims))
 
 
@@ -94,9 +105,9 @@ def vec_of(mps, flipped):
     return v.reshape(-1)
 
 
-def run_case(seed, L, dims, chi, deficient, ops):
+def run_case(seed, L, dims, chi, deficient, ops, alias=None):
     rng = np.random.default_rng(seed)
-    mps = random_mps(rng, L, dims, chi, deficient)
+    mps = random_mps(rng, L, dims, chi, deficient, alias)
     v = dense.mps_dense(mps)
     flipped = False
     problems = []
@@ -138,9 +149,15 @@ def correspond(ctx):
         ops = gen_ops(ctx.rng, L)
         seed = int(ctx.rng.integers(0, 2**31))
         deficient = bool(ctx.rng.random() < 0.3)
-        impl.append(run_case(seed, L, dims, chi, deficient, ops))
+        alias = [None, None, "object", "view"][k % 4]
+        if alias:
+            L = max(L, 4)
+            dims = [2] * L
+            ops = gen_ops(ctx.rng, L)
+            ctx.count("aliased_site_tensors")
+        impl.append(run_case(seed, L, dims, chi, deficient, ops, alias))
         exprs.append(f"let g := fold_left apply_gop {g_list([g_op(o) for o in ops])} (unknown {L}%nat) in (lf g, rf g, centres g)")
-        cases.append(dict(seed=seed, L=L, dims=dims, chi=chi, deficient=deficient, ops=ops))
+        cases.append(dict(seed=seed, L=L, dims=dims, chi=chi, deficient=deficient, ops=ops, alias=alias))
     vals = common.coq_eval_sharded(HEADER, exprs, tag="c10")
     for c, (flags, centres, problems), (mlf, mrf, mcent) in zip(cases, impl, vals):
         kinds = {o[0] for o in c["ops"]}
@@ -197,6 +214,6 @@ def replay(ctx, data):
     if rp.get("oracle") == "pad":
         return pad_oracle(rp["args"])
     if rp.get("oracle") == "sequence":
-        _, _, problems = run_case(rp["seed"], rp["L"], rp["dims"], rp["chi"], rp["deficient"], [tuple(o) for o in rp["ops"]])
+        _, _, problems = run_case(rp["seed"], rp["L"], rp["dims"], rp["chi"], rp["deficient"], [tuple(o) for o in rp["ops"]], rp.get("alias"))
         return "; ".join(problems) or None
     return "re-run the check: " + "; ".join(b["what"] for b in data.get("broken", []))
